@@ -105,9 +105,10 @@ def orderPreservingCall (e : Expr) (key : Path) : Bool :=
     | _ => false
   | _ => false
 
-/-- the loop shared by `isKeyOfSummarize` and the Summarize case of `propagateSortKeyOp`. -/
+/-- the loop shared by `isKeyOfSummarize` and the Summarize case of `propagateSortKeyOp`: only
+    the *first* group-by key counts (the group-by operator streams on its first key only). -/
 def summarizeKeyMatches (keys : List Assign) (key : Path) : Bool :=
-  keys.any fun k =>
+  (keys.take 1).any fun k =>
     let groupByKey := fieldOf k.lhs
     pathEq groupByKey key && (pathEq (fieldOf k.rhs) key || orderPreservingCall k.rhs groupByKey)
 
